@@ -422,7 +422,7 @@ MENUS = {
 # other's ARP broadcast and asks again); it ends when the channel is full.  With the shipped 95 Mbit capacity it ends in a
 # RecursionError whose depth depends on the caller's stack, so that one event is left out at the default capacity.
 MENU_T4_DEFAULT = [e for e in MENUS["T4"] if e != ("ping", "pa", "192.168.1.9")]
-T4_FACTORS = ["1u", 1.5, 2.5, 10]
+T4_FACTORS = [0, 0.5, "1u", 1.5, 2.5, 10]  # 0 and 0.5: not even one frame fits (the shipped "blocked channel" configuration is 0)
 PROBE = {"T1": ("a", "10.0.0.3"), "T2": ("client", "10.0.2.2"), "T4": ("pa", "192.168.2.2")}
 
 _UNIT = {}
@@ -751,7 +751,7 @@ def run_script(item):
 # ----------------------------------------------------------------------------------------------------------
 # run
 # ----------------------------------------------------------------------------------------------------------
-FACTORS = ["1u", 1.5, 2.5, 10, "default"]
+FACTORS = [0.5, "1u", 1.5, 2.5, 10, "default"]
 
 
 def run(tier, is_known):
